@@ -429,7 +429,15 @@ def _sum(interp, st, args, kwargs):
 def _any_all(is_any):
     def fn(interp, st, args, kwargs):
         (v,) = args
-        items = interp.concrete_items(st, resolve(st, v))
+        rv = resolve(st, v)
+        if is_heap(rv, 'list') and rv.ty.cls.elem == BOOL:
+            cls = rv.ty.cls
+            arr, n = st.heap.read(cls, 'arr', rv.z), st.heap.read(cls, 'len', rv.z)
+            i = z3.Int(sym.fresh_name('qi'))
+            body = z3.And(0 <= i, i < n, z3.Select(arr, i)) if is_any else z3.Implies(z3.And(0 <= i, i < n), z3.Select(arr, i))
+            yield st, SV(BOOL, z3.Exists([i], body) if is_any else z3.ForAll([i], body))
+            return
+        items = interp.concrete_items(st, rv)
         if items is None:
             raise Unsupported('any/all over symbolic iterable')
         zs = [interp.truth(st, x) for x in items]
@@ -886,7 +894,7 @@ def opaque_type(name, pytype=None, attrs=None, truth=None):
 
 
 # ------------------------------------------------------------------ asyncio / quantified calls
-def forall_call(interp, st, f, coll, label):
+def forall_call(interp, st, f, coll, label, swallow=False):
     """`f` applied to every element of `coll` exactly once, in unspecified order
     (asyncio.gather(*map(f, S))).  The body is executed once for an arbitrary
     element; its events are recorded as one quantified event."""
@@ -903,6 +911,11 @@ def forall_call(interp, st, f, coll, label):
         subpaths.append({'pc': s.pc[base_pc:], 'events': s.events[base_ev:],
                          'raised': isinstance(v, Raised), 'exc': v.exc.cls if isinstance(v, Raised) else None})
     can_raise = any(p['raised'] for p in subpaths)
+    if swallow:
+        # gather(..., return_exceptions=True): failures of individual calls are returned, not raised
+        st.emit('forall', var=x, member=arr, paths=subpaths, label=label, partial=False, swallowed=True)
+        yield st, None
+        return
     if can_raise:
         t = st.copy()
         t.emit('forall', var=x, member=arr, paths=subpaths, label=label, partial=True)
@@ -911,10 +924,38 @@ def forall_call(interp, st, f, coll, label):
     yield st, None
 
 
+_gather_group = [0]
+
+
 def _gather(interp, st, args, kwargs):
-    if len(args) == 1 and isinstance(args[0], StarArg) and isinstance(args[0].v, MapVal):
-        mv = args[0].v
-        yield from forall_call(interp, st, mv.f, mv.over, getattr(mv.f, 'name', 'f'))
+    """asyncio.gather(*map(f, S), *map(g, T), ...): all calls of one gather are concurrent (same group)"""
+    swallow = False
+    if 'return_exceptions' in kwargs:
+        r = kwargs['return_exceptions']
+        if r is True:
+            swallow = True
+        elif r is not False:
+            raise Unsupported('gather(return_exceptions=<symbolic>)')
+    if args and all(isinstance(a, StarArg) and isinstance(a.v, MapVal) for a in args):
+        _gather_group[0] += 1
+        group = _gather_group[0]
+
+        def go(i, s):
+            if i == len(args):
+                yield s, None
+                return
+            mv = args[i].v
+            n0 = len(s.events)
+            for s2, v in forall_call(interp, s, mv.f, mv.over, getattr(mv.f, 'name', 'f'), swallow=swallow):
+                for e in s2.events[n0:]:
+                    if e.kind == 'forall':
+                        e.data['group'] = group
+                if isinstance(v, Raised):
+                    yield s2, v
+                else:
+                    yield from go(i + 1, s2)
+
+        yield from go(0, st)
         return
     raise Unsupported('asyncio.gather form')
 
